@@ -224,8 +224,12 @@ class VirtualPool:
         if self.results is not None:
             return
         assign = VirtualPool.assignment
-        if assign is None or len(assign) != len(self.tasks):
-            raise RuntimeError('schedule does not match the task list: %r for %d tasks' % (assign, len(self.tasks)))
+        if assign is None:
+            raise RuntimeError('no schedule given for %d tasks' % len(self.tasks))
+        if len(assign) != len(self.tasks):
+            # the library built another task list than the explorer predicted (that is for the oracle to judge, e.g. a file
+            # without a result): keep the given placement for the tasks there are, further tasks go to worker 0
+            assign = (list(assign) + [0] * len(self.tasks))[:len(self.tasks)]
         VirtualPool.log = (self.processes, len(self.tasks))
         nworkers = max(assign) + 1 if assign else 0
         workers = [_Worker() for _ in range(nworkers)]      # forked now, like Pool() forks at construction
